@@ -193,6 +193,11 @@ WordFaults(l, w) ==
    \cup (IF IsDataId(id) /\ ~g[l].sod THEN {[kind |-> "dw_id_is_cdw_id", fam |-> "70", w |-> [w EXCEPT ![10] = ID_CDW]]} ELSE {})
    \cup (IF IsDataId(id) THEN {[kind |-> "dw_id_is_ihw_id", fam |-> "991", w |-> [w EXCEPT ![10] = ID_IHW]],
                                [kind |-> "dw_id_is_ddw0_id", fam |-> "991", w |-> [w EXCEPT ![10] = ID_DDW0]]} ELSE {})
+   \* and the other way round: a valid DATA word identifier where a status word is due (outside the data section it is not legal: the expected word's
+   \* sanity error in single-successor states, the unrecognised-id error in choice states - also when the packet has carried data words before)
+   \cup (IF id = ID_IHW THEN {[kind |-> "ihw_id_is_data_id", fam |-> IF s \in {"IHW", "c_IHW"} THEN "30" ELSE IdFam(s), w |-> [w EXCEPT ![10] = IF Ob THEN 67 ELSE 35]]} ELSE {})
+   \cup (IF id = ID_TDH THEN {[kind |-> "tdh_id_is_data_id", fam |-> IF s \in {"TDH", "c_TDH"} THEN "40" ELSE IdFam(s), w |-> [w EXCEPT ![10] = IF Ob THEN 67 ELSE 35]]} ELSE {})
+   \cup (IF id = ID_DDW0 THEN {[kind |-> "ddw0_id_is_data_id", fam |-> IdFam(s), w |-> [w EXCEPT ![10] = IF Ob THEN 67 ELSE 35]]} ELSE {})
 
 AddWordWith(l, w, wreal, flt) ==
    LET skip == ~Its \/ g[l].padf            \* payload not examined (no target), or skipped because of its padding
